@@ -55,7 +55,18 @@ class ConnectResponse(KNXIPBodyResponse):
             pos += self.data_endpoint.from_knx(raw[pos:])
             pos += self.crd.from_knx(raw[pos:])
         else:
-            # do not parse HPAI and CRD in case of errors - just check length
+            # servers omit or zero HPAI and CRD in case of errors:
+            # keep them only if both are well-formed - just check length otherwise
+            data_endpoint = HPAI()
+            crd = ConnectResponseData()
+            try:
+                hpai_length = data_endpoint.from_knx(raw[pos:])
+                crd.from_knx(raw[pos + hpai_length :])
+            except CouldNotParseKNXIP:
+                pass
+            else:
+                self.data_endpoint = data_endpoint
+                self.crd = crd
             pos = len(raw)
         return pos
 
